@@ -50,7 +50,9 @@ type zvFieldOps struct {
 	equal    func(a, b interface{}) int
 	aliasMul func(a interface{}) interface{} // e.Mul(e,e) on a copy
 	aliasAdd func(a interface{}) interface{}
-	aliasSub func(a, b interface{}) interface{} // b' := copy(b); b'.Sub(a, b')
+	aliasSub func(a, b interface{}) interface{}                       // b' := copy(b); b'.Sub(a, b')
+	aliasUn  func(op string, a interface{}) interface{}               // e := copy(a); e.Opp(e) / e.Square(e)
+	aliasSel func(a, b interface{}, cond int, first bool) interface{} // receiver is (a copy of) the first / second operand
 }
 
 func zvFieldP() *zvFieldOps {
@@ -94,6 +96,21 @@ func zvFieldP() *zvFieldOps {
 		aliasSub: func(a, b interface{}) interface{} {
 			e := c16recvP().Set(E(b))
 			return e.Sub(E(a), e)
+		},
+		aliasUn: func(op string, a interface{}) interface{} {
+			e := c16recvP().Set(E(a))
+			if op == "opp" {
+				return e.Opp(e)
+			}
+			return e.Square(e)
+		},
+		aliasSel: func(a, b interface{}, c int, first bool) interface{} {
+			if first {
+				e := c16recvP().Set(E(a))
+				return e.Select(e, E(b), c)
+			}
+			e := c16recvP().Set(E(b))
+			return e.Select(E(a), e, c)
 		},
 	}
 }
@@ -145,6 +162,22 @@ func zvFieldN() *zvFieldOps {
 		aliasSub: func(a, b interface{}) interface{} {
 			e := c16recvN().Set(E(b))
 			return e.Sub(E(a), e)
+		},
+		aliasUn: func(op string, a interface{}) interface{} {
+			e := c16recvN().Set(E(a))
+			if op == "opp" {
+				sm2ScalarOpp(&e.x, &e.x)
+				return e
+			}
+			return e.Square(e)
+		},
+		aliasSel: func(a, b interface{}, c int, first bool) interface{} {
+			if first {
+				e := c16recvN().Set(E(a))
+				return e.Select(e, E(b), c)
+			}
+			e := c16recvN().Set(E(b))
+			return e.Select(E(a), e, c)
 		},
 	}
 }
@@ -366,6 +399,16 @@ func TestVerifC16(t *testing.T) {
 				chk("add", f.add(ea, eb), mod(new(big.Int).Add(a, b)), a, b)
 				chk("sub", f.sub(ea, eb), mod(new(big.Int).Sub(a, b)), a, b)
 				chk("sub-alias", f.aliasSub(ea, eb), mod(new(big.Int).Sub(a, b)), a, b)
+				// the other in-place forms the point arithmetic uses (Negate in place negates y in place, Select in place
+				// selects into an operand, the doubling formulas square in place)
+				if f.opp != nil {
+					chk("opp-alias", f.aliasUn("opp", ea), mod(new(big.Int).Neg(a)), a, a)
+				}
+				chk("square-alias", f.aliasUn("square", ea), mod(new(big.Int).Mul(a, a)), a, a)
+				chk("select-alias-first", f.aliasSel(ea, eb, 1, true), a, a, b)
+				chk("select-alias-first-0", f.aliasSel(ea, eb, 0, true), b, a, b)
+				chk("select-alias-second", f.aliasSel(ea, eb, 0, false), b, a, b)
+				chk("select-alias-second-1", f.aliasSel(ea, eb, 1, false), a, a, b)
 				chk("mul", f.mul(ea, eb), mod(new(big.Int).Mul(a, b)), a, b)
 				chk("select1", f.sel(ea, eb, 1), a, a, b)
 				chk("select0", f.sel(ea, eb, 0), b, a, b)
